@@ -22,6 +22,9 @@ META = {
 }
 
 
+THREAD_REPLICA = False   # this monitor uses a process-wide sys.monitoring probe / has its own thread trials
+
+
 def shards(tier):
     names = sorted(C.number_modules())
     n = 32 if tier == 'quick' else 64
